@@ -20,7 +20,7 @@ add("C19", 'xenum', 'exploration',
     'DESIGN.md 4 C19')
 
 add("C01", 'xenum+seqx', 'exploration',
-    'bounded exhaustive enumeration of honest issuance flows (type x key x challenge length x nonce x entropy x batch x origin x blind alphabets, keys with truncated id 00/ff found by search, special origin names, the empty challenge as nil and as empty slice, type-3 blinds that are not group scalars) on the real code with every message crossing the wire as bytes, plus all sequences (length 2..3/4) of issuances that share the issuer-side request object or are in flight together, plus the life of one type-3 client object across origins registered late and issuers with sibling token keys',
+    'bounded exhaustive enumeration of honest issuance flows (type x key x challenge length x nonce x entropy x batch x origin x blind alphabets, keys with truncated id 00/ff found by search, special origin names, the empty challenge as nil and as empty slice, type-3 blinds that are not group scalars, type-2 blinds with leading zero bytes) on the real code with every message crossing the wire as bytes, plus all sequences (length 2..3/4) of issuances that share the issuer-side request object or are in flight together, plus the life of one type-3 client object across origins registered late and issuers with sibling token keys',
     "Every tuple of the per-type alphabets is run client -> bytes -> decoder -> issuer (-> attester for type 3) -> bytes -> client; the token must have the exact layout and verify under an independent verifier (crypto/rsa PSS; RFC 9497 evaluation recomposed from group primitives) and under the issuer's own Verify. Callers reuse their argument buffers after every call; issuers reuse their decoder object; several requests are evaluated before the first is finalized.",
     'Keys, nonces, challenges and blinds are fixed alphabets of representatives (boundary scalars 1, 2, N-1, leading-zero, DRBG); entropy is a SHA-256 counter DRBG installed in crypto/rand.Reader.',
     'DESIGN.md 4 C01, 9.2b')
@@ -38,10 +38,10 @@ add("C10", "xenum", "exploration",
 add("C11", "xenum", "exploration",
     "bounded exhaustive enumeration of (type x key x input x salt x batch size x ordered pairs of blinds) with caller-supplied blinds plus all shipped interop vectors, comparing request and token bytes across repetitions, interleaved unrelated calls and blinds",
     "Request creation must be a pure function of its arguments and the finalized token identical under every blind and on every run; the 3 Rust vectors and the 20 Go vectors must reproduce byte for byte (request, decoded response finalization, token).",
-    "Blind alphabets are boundary scalars plus DRBG values, for RSA also N-1 and respellings of one integer with leading zero bytes (same request required); a blind repeated within a batch; degenerate salts; degenerate blinds (nil, empty, zero, order/modulus, wrong lengths and counts) must give the same outcome on every call; 'every run' is observed as repeated in-process issuance under different issuer randomness.",
+    "Blind alphabets are boundary scalars plus DRBG values, for RSA also N-1 and respellings of one integer with leading zero bytes (same request required); a blind repeated within a batch; one challenge buffer refilled for every request with an unrelated request first; token context = SHA-256(challenge); degenerate salts; degenerate blinds (nil, empty, zero, order/modulus, wrong lengths and counts) must give the same outcome on every call; 'every run' is observed as repeated in-process issuance under different issuer randomness.",
     "DESIGN.md 4 C11")
 add("C18", "xenum", "exploration",
-    "bounded exhaustive enumeration of RSA public keys (every modulus bit length 16..2100/4104 x 4 value patterns x 9 exponents (incl. 0, 1, 2), moduli up to 20000 bits, OPRF keys found by search whose serialised public key starts or ends with a zero byte, a key object refilled in place, moduli containing PEM text, plus 10 exponents whose DER ends in bytes that text handling trims), VOPRF keys and name keys against a hand-written DER/TLV reference and independent key-id computation",
+    "bounded exhaustive enumeration of RSA public keys (every modulus bit length 16..2100/4104 x 4 value patterns x 9 exponents (incl. 0, 1, 2), moduli up to 20000 bits, OPRF keys found by search whose serialised public key starts or ends with a zero byte, a key object refilled in place (keys decoded earlier stay intact), moduli containing PEM text, plus 10 exponents whose DER ends in bytes that text handling trims), VOPRF keys and name keys against a hand-written DER/TLV reference and independent key-id computation",
     "Both SPKI forms round-trip; the RSASSA-PSS form is byte-identical to hand-assembled DER with the literal RFC 9578 AlgorithmIdentifier; each issuer TokenKeyID equals SHA-256 of the independently serialised public key; requests of types 1/2/5 carry its last byte; type-3 requests carry SHA-256 of the name key bytes the issuer published (hand-built for every key id x KEM x KDF x AEAD), also when one client object uses several name keys in turn, and a decoded name key serialises back to those bytes.",
     "Trusted: the hand DER encoder and the 63-byte AlgorithmIdentifier literal in checks/c18; crypto/elliptic for the P-384 public key reference.",
     "DESIGN.md 4 C18")
@@ -53,7 +53,7 @@ add("C20", 'xenum', 'exploration',
 
 add("C04", "xenum+seqx", "model_checking",
     "bounded exhaustive enumeration of accepted byte strings and well-formed values per codec plus explicit-state enumeration of Marshal/Unmarshal operation sequences on live objects, against hand-written wire encoders",
-    "13 codecs: every well-formed value from field alphabets round-trips and equals the hand encoding; every generated byte string a decoder accepts re-encodes to something no longer (and, where the length is the same, to the identical bytes: the decoder returns the value that was encoded), which decodes to the same value and is what Marshal returns on fresh and on reused objects; every operation sequence (Marshal, Unmarshal of 4 valid and 3 invalid encodings) up to depth 3/4 on one object; 4 request decoders x 4 bodies x all 65536 tags; batch lists over 7 element types up to length 3/4; Rust vectors decode and re-encode byte for byte.",
+    "13 codecs: every well-formed value from field alphabets (incl. hand-assembled name keys of other KEMs) round-trips and equals the hand encoding; every generated byte string a decoder accepts re-encodes to something no longer (and, where the length is the same, to the identical bytes: the decoder returns the value that was encoded), which decodes to the same value and is what Marshal returns on fresh and on reused objects; every operation sequence (Marshal, Unmarshal of 4 valid and 3 invalid encodings) up to depth 3/4 on one object; 4 request decoders x 4 bodies x all 65536 tags; batch lists over 7 element types up to length 3/4; Rust vectors decode and re-encode byte for byte.",
     "Arbitrary accepted strings are represented by the structured generators; contents of an object after a rejected Unmarshal are treated as unspecified; hand encoders are the trusted reference of the wire format.",
     "DESIGN.md 4 C04")
 add("C08", 'seqx', 'model_checking',
@@ -67,7 +67,7 @@ add("C09", 'seqx', 'model_checking',
     'State merging assumes decisions depend on the dumped maps and the arguments only (the third search does not); event arguments are precomputed honest byte strings.',
     'DESIGN.md 4 C09, 9.2b')
 add("C14", "xenum+envx", "exploration",
-    "bounded exhaustive differential enumeration against crypto/ed25519 and math/big references: seeds x message lengths for derive/sign (also through crypto.Signer with entropy readers), every entropy-fault script with <= 1/2 deviations for GenerateKey (returned public key and Public() overwritten by the caller before signing), 54 A x 54 R x 17 S x 3 messages plus valid signatures for low-order keys over the whole S alphabet (R = [S]B + torsion) plus all bit flips for Verify (an honest signature is verified right after every case), all triples/pairs of a 309/786-scalar limb-boundary alphabet for the scalar arithmetic (alphabet closed under inversion), alphabet scalars x 14 points for the point operations",
+    "bounded exhaustive differential enumeration against crypto/ed25519 and math/big references: seeds x message lengths for derive/sign (also through crypto.Signer with entropy readers), every entropy-fault script with <= 1/2 deviations for GenerateKey (returned public key and Public() overwritten by the caller before signing), 54 A x 54 R x 17 S x 3 messages plus valid signatures for low-order keys over the whole S alphabet (R = [S]B + torsion) plus all bit flips for Verify (an honest signature is verified right after every case; foreign-owner signatures over every key string verified twice), all triples/pairs of a 309/786-scalar limb-boundary alphabet for the scalar arithmetic (alphabet closed under inversion), alphabet scalars x 14 points for the point operations",
     "Byte equality with the standard library for key derivation and signatures, identical read sequence and results under every enumerated entropy script, identical Verify verdicts on torsion/non-canonical/boundary inputs, and agreement of the internal scalar/point arithmetic with math/big and an affine Edwards reference (through the verif hook).",
     "Arithmetic equivalence is reached only through the boundary alphabets (limb patterns, q*L+r bands): a wrong carry needing an operand outside them is invisible. This is the thinnest claim of the set.",
     "DESIGN.md 4 C14")
@@ -85,7 +85,7 @@ add("C06", 'xenum', 'exploration',
 add("C12", "xenum", "exploration",
     "bounded exhaustive enumeration of curves x signing scalars x blind encodings x contexts x digest lengths and all pairs of blinds/contexts, against an RFC 9380 expand_message_xmd / hash_to_field reference and crypto/elliptic / crypto/ecdsa",
     "Blinded public key == factor*pk with the independently recomputed factor on all four curves; blinded signatures verify under the blinded key (this package and crypto/ecdsa) and not under the unblinded key; unblind inverts blind; two blinds commute; changing exactly the blind or exactly the context changes the key; encodings of the same blind scalar give the same key.",
-    "Scalars, blinds (incl. zero, leading-zero, >= N and over-long encodings; one signature object is shown to all verifiers in turn), contexts and digests come from boundary alphabets; P-224 is pinned to (SHA-256, L=32) as in the code, no RFC suite fixes it.",
+    "Scalars, blinds (incl. zero, leading-zero, >= N and over-long encodings; one signature object is shown to all verifiers in turn; blinding key objects of another curve or without one), contexts and digests come from boundary alphabets; P-224 is pinned to (SHA-256, L=32) as in the code, no RFC suite fixes it.",
     "DESIGN.md 4 C12")
 add("C13", "xenum+envx", "exploration",
     "bounded exhaustive differential enumeration against crypto/ecdsa: 18x18 boundary (r,s) pairs around honest signatures x digest variants, signatures constructed around nonce points with affine x in [N,P) or a tiny x (shortest DER) under the public key recovered from them, signatures made backwards for public keys with x = 0..5, key generation on boundary entropy blocks, ~1000-1700 DER mutations per honest ASN.1 signature, cross acceptance of every producer, and every entropy-fault script with <= 1/2 deviations for key generation and the signing entry points",
